@@ -4,7 +4,7 @@
 //! unsafe blocks.
 use super::*;
 
-const N: usize = 5;
+const N: usize = 7;
 
 #[derive(Clone, Copy, PartialEq, Eq)]
 struct El {
@@ -87,10 +87,21 @@ fn sorted_stable(v: &[El]) -> bool {
 
 /// insert_head: v[1..] sorted => v sorted afterwards (on success), permutation always.
 #[kani::proof]
-#[kani::unwind(7)]
+#[kani::unwind(9)]
 fn insert_head_b5() {
+    insert_head_bounded(5)
+}
+
+/// thorough tier: the same contract for slices of at most 7 elements
+#[kani::proof]
+#[kani::unwind(9)]
+fn insert_head_b7() {
+    insert_head_bounded(7)
+}
+
+fn insert_head_bounded(max_len: usize) {
     let len: usize = kani::any();
-    kani::assume(len <= N);
+    kani::assume(len <= max_len);
     let before = any_input(len);
     kani::assume(len < 2 || sorted_stable(&before[1..len]));
     let mut v = before;
@@ -102,5 +113,5 @@ fn insert_head_b5() {
     if let Ok(Ok(())) = r {
         assert!(sorted_stable(&v[..len]) , "insert_head: on success the slice is sorted (stable)");
     }
-    kani::cover!(len == N && matches!(r, Ok(Ok(()))), "success reachable");
+    kani::cover!(len == max_len && matches!(r, Ok(Ok(()))), "success reachable");
 }
